@@ -169,6 +169,7 @@ func (br *bodyRun) mergeStates(sts []*State) *State {
 		}
 		fc.nbase++
 		m.base = fc.nbase
+		fc.baseAlloc[m.base] = m.alloc
 	}
 	var ks []string
 	for k := range keys {
@@ -363,17 +364,14 @@ func (br *bodyRun) havocLoop(li *loopInfo, st *State) {
 		fc.havocAll(st)
 		return
 	}
-	for _, k := range keys {
-		fc.havocKey(st, k.key, k.sort)
-	}
-	if len(keys) > 0 {
-		// allocation may have advanced
-	}
 	// the allocation counter may grow in the loop
 	if br.loopAllocates(li) {
 		na := fc.smt.declare("alloc", "Int")
 		fc.assume(st, app(">=", na, st.alloc))
 		st.alloc = na
+	}
+	for _, k := range keys {
+		fc.havocKey(st, k.key, k.sort)
 	}
 }
 
@@ -531,6 +529,14 @@ func (br *bodyRun) envAt(b *ssa.BasicBlock, idx int, st *State, phiOv map[*ssa.P
 	env.resolve = func(name string) (TV, bool) {
 		if tv, ok := br.resolveAt(b, idx, name, st, phiOv); ok {
 			return tv, true
+		}
+		return TV{}, false
+	}
+	env.oldResolve = func(name string) (TV, bool) {
+		for _, p := range br.fn.Params {
+			if p.Name() == name {
+				return TV{fc.val(p), p.Type()}, true
+			}
 		}
 		return TV{}, false
 	}
@@ -872,6 +878,22 @@ func (fc *FnCtx) prove(env *SpecEnv, e *Expr, st *State, name, kind string, pos 
 			rec(env, &Expr{K: "bin", Op: "==>", X: []*Expr{e.X[0], e.X[1]}}, st)
 			rec(env, &Expr{K: "bin", Op: "==>", X: []*Expr{e.X[1], e.X[0]}}, st)
 			return
+		case e.K == "bin" && e.Op == "==" && isBytesCall(e.X[0]) && isBytesCall(e.X[1]):
+			// content equality: lengths, then one skolemised index
+			ev := env.inState(st)
+			fa := ev.freeze(ev.eval(e.X[0].X[1]))
+			fb := ev.freeze(ev.eval(e.X[1].X[1]))
+			n++
+			nm := name
+			if n > 1 {
+				nm = fmt.Sprintf("%s#%d", name, n)
+			}
+			fc.oblige(st.clone(), eq(fa.Len, fb.Len), nm+":len", kind, pos, src)
+			s2 := st.clone()
+			i := fc.smt.declare("sk_i", bvsort(64))
+			fc.assume(s2, and(eq(fa.Len, fb.Len), app("bvsle", bvlit(0, 64), i), app("bvslt", i, fa.Len)))
+			fc.oblige(s2, eq(app("select", fa.Arr, app("bvadd", fa.Off, i)), app("select", fb.Arr, app("bvadd", fb.Off, i))), nm+":content", kind, pos, src)
+			return
 		case e.K == "quant" && e.Op == "forall":
 			n2 := env
 			s2 := st.clone()
@@ -932,6 +954,9 @@ func (env *SpecEnv) hypTerm(e *Expr) string {
 }
 
 func (fc *FnCtx) fnKey() string {
+	if fc.fn == nil {
+		return "lemmas"
+	}
 	return fc.eng.fnDisplay(fc.fn)
 }
 
